@@ -97,7 +97,7 @@ func commandPattern(n *Node) string {
 	for _, x := range n.Extras {
 		fmt.Fprintf(&b, " -x %s", x)
 	}
-	if n.PadTo > 0 {
+	if n.PadTo != 0 {
 		fmt.Fprintf(&b, " -n %d", n.PadTo)
 	}
 	if n.Barrier > 0 {
@@ -105,6 +105,9 @@ func commandPattern(n *Node) string {
 	}
 	if n.BGroup != "" {
 		fmt.Fprintf(&b, " -bgroup {p:%s}", n.BGroup)
+	}
+	if n.Suffix != "" {
+		b.WriteString(" " + n.Suffix)
 	}
 	return b.String()
 }
